@@ -491,6 +491,59 @@ def rule_tracer_thread(ctx, R="C03/tracer-thread"):
     ctx.ok(R, "spawn-sites", None, "thread spawn sites examined: %d" % n_spawn, nontrivial=False)
 
 
+import re as _re
+DISTURBING = _re.compile(r"^(nix::sys::signal::(kill|killpg|raise)|nix::sys::ptrace::|libc::(ptrace|kill|tgkill|tkill|killpg|prctl|setpriority|sched_setaffinity|process_vm_writev|pidfd_send_signal)$|nix::sys::uio::process_vm_writev|nix::unistd::(setpgid|setsid))")
+# every place in the crate (reachable or not) that can change the state of another process, with what it may do there
+INVENTORY = {
+    ("PtraceDumper::stop_process", "kill"): "SIGSTOP to the dumper's pid",
+    ("PtraceDumper::continue_process", "kill"): "SIGCONT to the dumper's pid",
+    ("PtraceDumper::suspend_thread", "attach"): "attach to the tid being suspended",
+    ("PtraceDumper::suspend_thread", "cont"): "re-inject a non-SIGSTOP stop signal (C03/reinject)",
+    ("ptrace_dumper::ptrace_detach", "detach"): "detach without a signal",
+    ("MemReader::ptrace", "read"): "PTRACE_PEEKDATA: reads a word",
+    ("CommonThreadInfo::ptrace_get_data", "ptrace"): "read-only requests only (C04/ptrace-requests: GETREGS 12, GETFPREGS 14)",
+    ("CommonThreadInfo::ptrace_get_data_via_io", "ptrace"): "read-only request only (C04/ptrace-requests: GETREGSET 0x4204)",
+    ("CommonThreadInfo::ptrace_peek", "ptrace"): "read-only request only (C04/ptrace-requests: PEEKUSER 3)",
+}
+READ_ONLY_PTRACE = {"read", "getregs", "getregset", "getsiginfo", "getevent", "read_user"}
+ALLOWED_SIGNALS = {"PtraceDumper::stop_process": "SIGSTOP", "PtraceDumper::continue_process": "SIGCONT"}
+
+
+def rule_disturbance_inventory(ctx, R="C03/disturbance-inventory"):
+    """`undisturbed`: the only things this crate ever does to another process are the reviewed ones — SIGSTOP/SIGCONT to the target,
+    attach / re-inject / detach of its threads, and read-only ptrace requests.  Every call of a state-changing primitive (signals,
+    any ptrace request, process_vm_writev, prctl ...) anywhere in the crate must be an inventory entry; signals are the two named
+    ones, sent to the dumper's own pid field."""
+    prog = ctx.prog
+    n = 0
+    seen = set()
+    for b in prog.bodies:
+        o = None
+        for bi, t in b.calls(lambda c: DISTURBING.search(c.short or "") is not None):
+            cv = CalleeView(t["callee"])
+            prim = (cv.short or "").split("::")[-1]
+            fn = "::".join(b.short.split("::{closure")[0].split("::")[-2:]).replace("<impl linux::ptrace_dumper::PtraceDumper>", "PtraceDumper")
+            fn = fn.split(">::")[-1] if fn.startswith("<") else fn
+            key = (fn, prim)
+            n += 1
+            seen.add(key)
+            why = INVENTORY.get(key)
+            if why is None and prim in READ_ONLY_PTRACE and (cv.short or "").startswith("nix::sys::ptrace::"):
+                why = "read-only ptrace request"
+            ctx.check(why is not None, R, key + ("#%d" % sum(1 for x, _ in b.calls(lambda c: (c.short or "") == cv.short) if x <= bi),), b.where(bi), "reviewed: %s" % why,
+                      "%s calls %s: a way of changing the target's state that is not in the reviewed inventory (the target must be left running and undisturbed)" % (fn, cv.short))
+            if prim == "kill" and why is not None:
+                o = o or Origin(b)
+                a = o.call_args(bi)
+                sig = strip(a[1])
+                signame = strip(dict(sig[3])["0"])[2] if sig[0] == "agg" and sig[2] == "Some" and strip(dict(sig[3])["0"])[0] == "agg" else None
+                pid = strip(a[0])
+                okpid = pid[0] == "call" and pid[1].endswith("Pid::from_raw") and core(pid[2][0])[0] == "field" and core(pid[2][0])[2] == "pid" and root(core(pid[2][0])[1]) == ("param", 1)
+                ctx.check(signame == ALLOWED_SIGNALS.get(fn) and okpid, R, key + ("signal",), b.where(bi), "%s sends %s to self.pid" % (fn.split("::")[-1], signame),
+                          "%s sends %s to %s (expected %s to self.pid)" % (fn.split("::")[-1], signame or show(sig)[:40], show(pid)[:50], ALLOWED_SIGNALS.get(fn)))
+    ctx.floor(R, "state-changing primitive call sites in the crate", n, 10)
+
+
 def rule_resume_before_return(ctx):
     R = "C03/resume-before-return"
     from rules.c01 import GEN
@@ -513,6 +566,10 @@ def run(ctx):
     rule_reinject(ctx)
     rule_resume_before_return(ctx)
     rule_tracer_thread(ctx)
+    rule_disturbance_inventory(ctx)
+    # the raw libc::ptrace helpers of the inventory only ever issue the read-only requests (same rule instance as C04/ptrace-requests)
+    from rules import c04 as _c04
+    _c04.rule_ptrace_requests(ctx, R="C03/read-only-requests")
     # resume_threads / Drop detach exactly the threads that are LISTED: the list may only be edited by the attach filter
     # (same rule instance as C04/thread-list-mutators)
     from rules import c04
